@@ -9,7 +9,7 @@ import time
 from .. import build, corpus, emit, shapes
 from ..build import Inconclusive, Lock, WORK
 from ..emit import crate_manifest, dep_enum_tools, write_if_changed
-from ..spec import all_features_config
+from ..spec import Config, all_features_config
 from ..verdict import Violation, finish
 
 RULE = ("declarations with 4-300 variants (gapless and with holes, renames, shuffled order, all 17 features, several mode "
@@ -78,6 +78,14 @@ def det_decls(tier: str, seed: int):
             cfg.feats = dict(items)
             cfg.split = [rng.randint(1, 5), rng.randint(1, 5), rng.randint(1, 5)]
             out.append((d, cfg))
+    # two to four missing values between MIN and MAX; duplicate names under match-mode string features
+    for r, vs, renames in (("u8", [1, 2, 4, 5, 7, 9, 10], "none"), ("i16", [-4, -3, -1, 0, 1, 3], "dups"),
+                           ("u32", [10, 11, 12, 14, 15, 17, 18, 19, 20, 21, 22, 23, 24, 25, 26, 27, 28, 29], "dups")):
+        d = shapes.build_decl(r, shapes.order_values(vs, "perm", rng), "det_small_%s" % r, "dec", renames, rng)
+        for t in ({"as_str": "match", "from_str": "match", "FromStr": "match", "iter": "table"},
+                  {"as_str": "auto", "from_str": "table", "FromStr": "auto", "iter": "auto"}):
+            out.append((d, corpus.legalize(corpus.cfg_all(t), d)))
+        out.append((d, corpus.legalize(Config({"as_str": {}, "try_from": {}, "TryFrom": {}, "Debug": {}}), d)))
     # declarations in ascending order carrying the compile-time sorted check
     for r, n in (("i16", 9), ("u8", 40)):
         vs = [(-4 if r == "i16" else 2) + 2 * i + (i // 5) for i in range(n)]
